@@ -29,7 +29,11 @@ RULE = ('cases = (table, operation, arguments), each executed on the three back-
         'read-only observers repr/str/print_data(limits)/hash/len/to_tuple/to_pandas/write_cxt/json/csv/'
         'hash_fixed and to_list()/to_numeric() whose result is overwritten in place (numpy and bitarray only: '
         'BinTableLists.to_list() returns the stored rows themselves on the unchanged tree); that stream also '
-        'uses wide (11-14 attributes) and tall (11-14, 21-23 objects) tables, where printing abbreviates')
+        'uses wide (11-14 attributes) and tall (11-14, 21-23 objects) tables, where printing abbreviates; after '
+        'every operation every operand is re-observed (shape, to_list, sums) and must be unchanged; '
+        'extension_i/intention_i/monotone variants and subscripts are also called with selections held in '
+        'tuple/set/frozenset/range/ndarray containers, in the positions where the unchanged tree agrees across '
+        'back-ends (see ARG_CONT, BASE_CONT, ROW_CONT, COL_CONT)')
 EXHAUSTIVE = {'thorough': 'every table of shape <= 2x2, 2x3, 3x2 with every operation and every duplicate-free '
                           'row/column selection (None, [], all ordered subsets, all slices with start/stop in '
                           'range and step in {1,2,-1,-2}); every 3x3 table with every operation (except all_i/any_i and FormalContext.__getitem__) and the '
@@ -44,15 +48,53 @@ IDX_OPS = ['all_i', 'any_i']
 
 # ------------------------------------------------------------------ items
 
+def as_range(l):
+    """The range object that iterates exactly l, or None."""
+    if len(l) == 0:
+        return range(0)
+    if len(l) == 1:
+        return range(l[0], l[0] + 1)
+    step = l[1] - l[0]
+    if step == 0 or any(b - a != step for a, b in zip(l, l[1:])):
+        return None
+    return range(l[0], l[-1] + (1 if step > 0 else -1), step)
+
+
+def wrap(tag, l):
+    """An index selection in the container named by tag (None stays None)."""
+    import numpy as np
+    if l is None:
+        return None
+    if tag in (None, 'list'):
+        return list(l)
+    if tag == 'tuple':
+        return tuple(l)
+    if tag == 'set':
+        return set(l)
+    if tag == 'frozenset':
+        return frozenset(l)
+    if tag == 'ndarray':
+        return np.array(list(l), dtype=int)
+    if tag == 'range':
+        r = as_range(list(l))
+        return list(l) if r is None else r
+    raise ValueError(tag)
+
+
+def denoted(tag, l):
+    """The index list the container yields when iterated (sets: Python's iteration order)."""
+    return None if l is None else [int(x) for x in wrap(tag, l)]
+
+
 def py_item(enc):
-    """['int', i] | ['slice', a, b, s] | ['list', l] | ['pair', x, y]  ->  Python subscript."""
+    """['int', i] | ['slice', a, b, s] | ['list', l (, container)] | ['pair', x, y]  ->  Python subscript."""
     k = enc[0]
     if k == 'int':
         return enc[1]
     if k == 'slice':
         return slice(enc[1], enc[2], enc[3])
     if k == 'list':
-        return list(enc[1])
+        return wrap(enc[2] if len(enc) > 2 else 'list', enc[1])
     return (py_item(enc[1]), py_item(enc[2]))
 
 
@@ -133,7 +175,7 @@ def _nats(x):
         if x is None:
             raise Bad('not an integer array')
         return [int(v) for v in x]
-    if isinstance(x, (list, tuple)):
+    if isinstance(x, (list, tuple, range)):
         if not all(_is_int(v) and v >= 0 for v in x):
             raise Bad('not naturals: %r' % (x,))
         return [int(v) for v in x]
@@ -266,14 +308,34 @@ def run_one(cls, case):
                     K.attribute_names = an
         else:
             K = FormalContext(data=[list(r) for r in t], object_names=on, attribute_names=an, backend=cls)
-        return apply_op(cls, K, case)
+        r = apply_op(cls, K, case)
+        unchanged(K.data, t, 'the context')
+        if list(K.object_names) != on or list(K.attribute_names) != an:
+            raise Bad('the operation changed the names of the context')
+        return r
     if hist:
         bt = make_table(cls, hist['data1'])
         _warm(cls, bt, hist['warm'])
         bt.data = raw_data(hist['assign'], t)
     else:
         bt = make_table(cls, t)
-    return apply_op(cls, bt, case)
+    r = apply_op(cls, bt, case)
+    unchanged(bt, t, 'the table')
+    return r
+
+
+def unchanged(bt, t, what):
+    """Re-observe an input after the operation: operations are pure, every operand must still hold the
+    data it was given (shape, content, and the reductions computed from the stored representation)."""
+    h, w = len(t), len(t[0]) if t else 0
+    try:
+        ok = (tuple(int(v) for v in bt.shape) == (h, w) and _rows(bt.to_list()) == [list(r) for r in t]
+              and int(bt.sum()) == sum(sum(r) for r in t)
+              and _nats(bt.sum(1)) == [sum(r) for r in t])
+    except Exception as e:     # noqa
+        raise Bad('%s cannot be read any more after the operation: %r' % (what, e))
+    if not ok:
+        raise Bad('the operation changed %s: %r' % (what, bt.to_list()))
 
 
 def apply_op(cls, obj, case):
@@ -301,12 +363,16 @@ def apply_op(cls, obj, case):
             return _ctx(r) if r.backend == cls else ['bad', r.backend]
         if op == 'ctx_extents':
             return ['ext', [[_name_id(m), _bools(e)] for m, e in K.to_bin_attr_extents()]]
+        if op == 'ctx_deriv':
+            f = [K.extension_i, K.intention_i, K.extension_monotone_i, K.intention_monotone_i][case['dkind']]
+            return ['nats', _nats(f(wrap(case.get('arg_c'), case['arg']), wrap(case.get('base_c'), case['base'])))]
         if op == 'ctx_eq':
             K2 = FormalContext(data=[list(r) for r in case['table2']], object_names=on, attribute_names=an,
                                backend=cls)
             r = (K == K2)
             if not _is_bool(r):
                 raise Bad('== is not a bool: %r' % (r,))
+            unchanged(K2.data, case['table2'], 'the right operand')
             return ['bool', bool(r)]
         raise ValueError(op)
     bt = obj
@@ -335,13 +401,16 @@ def apply_op(cls, obj, case):
     if op in BIN_OPS:
         bt2 = make_table(cls, case['table2'])
         if op == 'and':
-            return _table(bt & bt2)
-        if op == 'or':
-            return _table(bt | bt2)
-        r = (bt == bt2)
-        if not _is_bool(r):
-            raise Bad('== is not a bool: %r' % (r,))
-        return ['bool', bool(r)]
+            res = _table(bt & bt2)
+        elif op == 'or':
+            res = _table(bt | bt2)
+        else:
+            r = (bt == bt2)
+            if not _is_bool(r):
+                raise Bad('== is not a bool: %r' % (r,))
+            res = ['bool', bool(r)]
+        unchanged(bt2, case['table2'], 'the right operand')
+        return res
     if op in RED_OPS:
         r = getattr(bt, op)(case['axis'], _sel(case['rows']), _sel(case['cols']))
         if case['axis'] is None:
@@ -455,6 +524,9 @@ def op_term(case):
         return '(OCtxExtents %s)' % coq(case['anames'])
     if op == 'ctx_eq':
         return '(OCtxEq %s)' % coq(case['table2'])
+    if op == 'ctx_deriv':
+        return '(ODeriv %d %s %s)' % (case['dkind'], coq(denoted(case.get('arg_c'), case['arg'])),
+                                      some(denoted(case.get('base_c'), case['base'])))
     raise ValueError(op)
 
 
@@ -515,6 +587,13 @@ def stats(case):
         d['item'] = it[0] if it[0] != 'pair' else '%s,%s' % (it[1][0], it[2][0])
     if case['op'] == 'conv':
         d['conv'] = '%d->%s' % (case['via'], case['target'])
+    if case['op'] == 'ctx_deriv':
+        d['deriv'] = ['extension_i', 'intention_i', 'extension_monotone_i', 'intention_monotone_i'][case['dkind']]
+        d['container'] = '%s/%s' % (case.get('arg_c'), case.get('base_c') if case['base'] is not None else 'None')
+    if case['op'] in ('getitem', 'ctx_getitem'):
+        it = case['item']
+        parts = [it] if it[0] != 'pair' else [it[1], it[2]]
+        d['container'] = '/'.join((x[2] if len(x) > 2 else 'list') if x[0] == 'list' else x[0] for x in parts)
     hist = case.get('history')
     if hist:
         d['history'] = ('names:' + ''.join(hist.get('setters', ['o', 'a'])) + ('+data' if hist.get('data1') else '')) if 'onames1' in hist else (
@@ -634,6 +713,16 @@ def cases_for_table(t, full, others):
             yield _case(t, 'conv', 'exhaustive', via=via, target=target)
     for op in ('ctx_T', 'ctx_invert', 'ctx_extents'):
         yield _case(t, op, 'exhaustive')
+    if full:    # derivation operators with the argument in every admitted container (C01 enumerates lists)
+        k = sum(sum(r) for r in t) + h
+        for dk in range(4):
+            n_arg = w if dk in (0, 2) else h
+            for arg in ([], [n_arg - 1], list(range(n_arg - 1, -1, -1))):
+                if dk == 2 and len(arg) == w:
+                    continue
+                k += 1
+                yield _case(t, 'ctx_deriv', 'exhaustive', dkind=dk, arg=arg, base=None,
+                            arg_c=ARG_CONT[dk][k % len(ARG_CONT[dk])], base_c='list')
 
 
 def _others(t, k):
@@ -704,8 +793,58 @@ def random_item(rng, h, w):
     return ['pair', random_index(rng, h), random_index(rng, w)]
 
 
-FAMILIES = [('noarg', 0.08), ('bin', 0.12), ('red', 0.35), ('get', 0.27), ('conv', 0.06), ('ctxget', 0.08),
-            ('ctxmisc', 0.04)]
+# Containers other than list in which a selection may be handed over.  Established empirically on the
+# unchanged tree: these are the positions where the three back-ends agree.  NOT included, because
+# BinTableNumpy differs there on the unchanged tree (a tuple is a multi-dimensional index for numpy, a set
+# is no index at all; the bitarray index translation subscripts the selection): tuple / set / frozenset
+# as a row selection or as a base-object set, set / frozenset as a column selection or base-attribute set,
+# set / frozenset attributes for extension_monotone_i, a tuple of columns next to an int row.
+ROW_CONT = ['ndarray', 'range']
+COL_CONT = ['ndarray', 'range', 'tuple']
+ARG_CONT = {0: ['tuple', 'set', 'frozenset', 'range', 'ndarray'], 1: ['tuple', 'set', 'frozenset', 'range', 'ndarray'],
+            2: ['tuple', 'range', 'ndarray'], 3: ['tuple', 'set', 'frozenset', 'range', 'ndarray']}
+BASE_CONT = {0: ['range', 'ndarray'], 1: ['range', 'ndarray', 'tuple'], 2: ['range', 'ndarray'],
+             3: ['range', 'ndarray', 'tuple']}
+
+
+def _tag(rng, enc, tags):
+    if enc[0] != 'list':
+        return enc
+    tags = [t for t in tags if t != 'range' or as_range(enc[1]) is not None]
+    return ['list', enc[1], rng.choice(tags)] if tags else enc
+
+
+def containerise(rng, item, ctx):
+    """Hand the index lists of a subscript over in other containers."""
+    if item[0] == 'pair':
+        a, b = item[1], item[2]
+        return ['pair', _tag(rng, a, ROW_CONT),
+                _tag(rng, b, [t for t in COL_CONT if t != 'tuple' or a[0] != 'int'])]
+    if ctx:     # a bare selection: FormalContext.__getitem__ pairs it with a column slice itself
+        return _tag(rng, item, ROW_CONT)
+    return item
+
+
+def random_deriv(rng, t, kind, names):
+    h, w = len(t), len(t[0])
+    dk = rng.randrange(4)
+    n_arg, n_base = (w, h) if dk in (0, 2) else (h, w)
+    arg = gen.random_subset(rng, n_arg)
+    if dk == 2 and len(arg) == w and rng.random() < 0.9:
+        arg = arg[:-1]
+    base = None if rng.random() < 0.4 else gen.random_subset(rng, n_base)
+    c = _case(t, 'ctx_deriv', kind, dkind=dk, arg=arg, base=base, arg_c='list', base_c='list', **names)
+    if rng.random() < 0.75:
+        tags = [x for x in ARG_CONT[dk] if x != 'range' or as_range(arg) is not None]
+        c['arg_c'] = rng.choice(tags)
+    if base is not None and rng.random() < 0.5:
+        tags = [x for x in BASE_CONT[dk] if x != 'range' or as_range(base) is not None]
+        c['base_c'] = rng.choice(tags)
+    return c
+
+
+FAMILIES = [('noarg', 0.08), ('bin', 0.12), ('red', 0.30), ('get', 0.25), ('conv', 0.05), ('ctxget', 0.08),
+            ('ctxmisc', 0.04), ('deriv', 0.08)]
 
 
 def _pick_family(rng, allowed=None):
@@ -758,12 +897,16 @@ def random_op(rng, t, kind, family=None, names=None, op=None):
         # back-end counts through a mask, i.e. treats the selection as a set)
         return _case(t, op, kind, axis=axis, rows=random_sel(rng, h),
                      cols=random_sel(rng, w, dup_ok=not (op == 'sum' and axis != 0)))
+    if family == 'deriv':
+        return random_deriv(rng, t, kind, names)
     if family == 'get':
-        return _case(t, 'getitem', kind, item=random_item(rng, h, w))
+        it = random_item(rng, h, w)
+        return _case(t, 'getitem', kind, item=containerise(rng, it, False) if rng.random() < 0.3 else it)
     if family == 'conv':
         return _case(t, 'conv', kind, via=rng.choice([0, 1]), target=rng.choice(BACKENDS + [None]))
     if family == 'ctxget':
-        return _case(t, 'ctx_getitem', kind, item=random_item(rng, h, w), **names)
+        it = random_item(rng, h, w)
+        return _case(t, 'ctx_getitem', kind, item=containerise(rng, it, True) if rng.random() < 0.3 else it, **names)
     return _case(t, op or rng.choice(['ctx_T', 'ctx_invert', 'ctx_extents']), kind, **names)
 
 
@@ -774,7 +917,7 @@ def family_of(op):
         return 'bin'
     if op in RED_OPS + IDX_OPS:
         return 'red'
-    return {'getitem': 'get', 'conv': 'conv', 'ctx_getitem': 'ctxget'}.get(op, 'ctxmisc')
+    return {'getitem': 'get', 'conv': 'conv', 'ctx_getitem': 'ctxget', 'ctx_deriv': 'deriv'}.get(op, 'ctxmisc')
 
 
 def random_case(rng, max_dim):
@@ -801,7 +944,7 @@ def history_case(rng, max_dim):
         t, kind = [[rng.random() < p for _ in range(w)] for _ in range(h)], 'wide' if w > h else 'tall'
     h, w = len(t), len(t[0])
     if on_ctx:
-        fam = rng.choice(['ctxget', 'ctxmisc', 'ctxmisc', 'bin'])
+        fam = rng.choice(['ctxget', 'ctxmisc', 'ctxmisc', 'bin', 'deriv'])
         case = random_op(rng, t, kind, family=fam, op='ctx_eq' if fam == 'bin' else None)
         names1 = {'onames': rng.sample(range(60, 120), h), 'anames': rng.sample(range(60, 120), w)}
         setters = rng.choice([[], ['o'], ['a'], ['a'], ['o', 'a'], ['a', 'o']])
@@ -820,7 +963,7 @@ def history_case(rng, max_dim):
         warm = [random_op(rng, d1, 'warm', family=family_of(case['op']), names=names1,
                           op=case['op'] if case['op'] != 'ctx_getitem' else None)]
         for _ in range(rng.randint(0, 2)):
-            fam2 = rng.choice(['ctxget', 'ctxmisc', 'bin'])
+            fam2 = rng.choice(['ctxget', 'ctxmisc', 'bin', 'deriv'])
             warm.append(random_op(rng, d1, 'warm', family=fam2, names=names1, op='ctx_eq' if fam2 == 'bin' else None))
         for _ in range(rng.randint(0, 3)):
             ob = rng.choice(OBSERVERS_CTX + ['repr', 'print_data', 'print_data'])
@@ -927,7 +1070,7 @@ def shrink(case):
                 c['onames'] = [x for k, x in enumerate(case['onames']) if k != drop_row]
             if drop_col is not None:
                 c['anames'] = [x for k, x in enumerate(case['anames']) if k != drop_col]
-            if case.get('history'):     # the earlier state of a context has the same shape: too entangled
+            if case.get('history') or op == 'ctx_deriv':   # too entangled to re-index
                 return None
         return c
     hist = case.get('history')
@@ -959,6 +1102,16 @@ def shrink(case):
             c = with_table([[v for k, v in enumerate(r) if k != j] for r in t], drop_col=j)
             if c is not None:
                 out.append(c)
+    if op == 'ctx_deriv':
+        for key in ('arg', 'base'):
+            v = case.get(key)
+            if v:
+                for i in range(len(v)):
+                    c = dict(case)
+                    c[key] = v[:i] + v[i + 1:]
+                    out.append(c)
+        if case.get('arg_c') != 'list' or case.get('base_c') != 'list':
+            out.append(dict(case, arg_c='list', base_c='list'))
     for key in ('rows', 'cols'):
         v = case.get(key)
         if v:
